@@ -32,6 +32,8 @@ BUDGET = {"quick": {"off_runs": 260, "on_runs": 24, "timeout": 420}, "thorough":
 
 MESHES = [
     ("band", {"nx": 6, "ny": 2}),
+    ("band", {"nx": 6, "ny": 3, "lon0": -180.0, "lat0": -45.0, "lat1": 45.0}),
+    ("patch", {"nx": 5, "ny": 3, "lon0": 150.0, "lon1": 200.0, "lat0": -20.0, "lat1": 25.0}),
     ("patch", {"nx": 3, "ny": 2, "lon0": 150.0, "lon1": 200.0}),
     ("patch", {"nx": 3, "ny": 3, "lon0": -40.0, "lon1": 30.0, "tri": 4}),
     ("mix", {"lon_c": 176.0}),
@@ -71,7 +73,9 @@ def gen_source(rng):
             extra.append(rng.choice(["face_lonlat", "face_xyz"]))
         if rng.random() < 0.25:
             extra += ["edge_nodes", rng.choice(["edge_lonlat", "edge_xyz"])]
-        spec["dialect"] = {"lon360": rng.random() < 0.3, "extra": extra, "start": rng.choice([0, 1]), "xyz_scale": rng.choice([1.0, 1.0, 2.0]), "edge_flip": rng.random() < 0.5, "int_coords": rng.random() < 0.25}
+        spec["dialect"] = {"lon360": rng.random() < 0.3, "extra": extra, "start": rng.choice([0, 1]), "xyz_scale": rng.choice([1.0, 1.0, 2.0]), "edge_flip": rng.random() < 0.5, "int_coords": rng.random() < 0.35}
+        if spec["dialect"]["int_coords"]:
+            spec["jitter"] = 0.0
     elif r < 0.75:
         spec["prov"] = rng.choice(["vertices", "vertices_xyz", "vertices_xyz"])
         spec["dialect"] = {"xyz_scale": rng.choice([1.0, 1.0, 0.5, 2.0, 6371.0])}
@@ -111,6 +115,9 @@ def faces_equal(model, got, tol, ordered):
     mp, gp = model.xyz(), got.xyz()
     if np.any(~np.isfinite(gp)):
         return "non-finite node positions"
+    bad = [i for i, f in enumerate(got.faces) if any(n < 0 or n >= got.n_node for n in f)]
+    if bad:
+        return f"face {bad[0]} of the grid read back names node indices outside 0..{got.n_node - 1}: {got.faces[bad[0]][:6]}"
     want = [dedup_cyclic(mp[f]) for f in model.faces]
     have = [dedup_cyclic(gp[f]) for f in got.faces]
     if ordered:
